@@ -56,3 +56,17 @@ Definition pat_tok_ok (t : token) : bool :=
 Definition TrieInv (nd : node) (k : nat) : Prop :=
   (forall es nd' verb m, Reach nd es nd' -> bound_at verb nd' = Some m -> length (m_vars m) = (k + nvars es)%nat) /\
   (forall es nd' pat c, Reach nd es nd' -> In (pat, c) (n_vars nd') -> forallb pat_tok_ok pat = true).
+
+(* reading an edge sequence back as text: a literal edge is spelled as registered, a variable edge is
+   "/" followed by its capture (captures in the order of the variables) *)
+Fixpoint fill (es : list edge) (cs : list str) : option str :=
+  match es with
+  | [] => match cs with [] => Some [] | _ => None end
+  | ELit k :: es' => match fill es' cs with Some r => Some (k ++ r) | None => None end
+  | EVar _ :: es' =>
+    match cs with
+    | c :: cs' => match fill es' cs' with Some r => Some (47%N :: c ++ r) | None => None end
+    | [] => None
+    end
+  end.
+
